@@ -35,6 +35,7 @@ ASSUMPTIONS = [
 DECIDING_COUNTERS = ["oracle.C09.static"]
 SHARD_TIMEOUT = {"quick": 900, "thorough": 3600}
 PY311 = "/usr/bin/python3.11"
+REBUILD_EVERY = 3
 
 
 def plan(tier, seed):
@@ -86,6 +87,28 @@ def check_code(co, acc, origin, ver):
         acc.maximum("blocks_per_function", st["blocks"])
     except Viol as v:
         ctx.viol(v)
+    # history: the front end is a pure function of the code object - building
+    # the same object again, after the first graph was transformed in place,
+    # must give a fresh graph that passes the same post-condition
+    if njump and acc.evaluations % REBUILD_EVERY == 0:
+        from ..hier import dump
+        try:
+            first = dump(flow.scfg, with_payload=True)
+            try:
+                flow.scfg.restructure()
+            except Exception:
+                pass
+            flow2 = ByteFlow.from_bytecode(co)
+            acc.counters["rebuilds_checked"] += 1
+            if dump(flow2.scfg, with_payload=True) != first:
+                ctx.violation("C09", "rebuild_of_same_code_object_differs", None)
+            else:
+                check_byteflow(co, flow2.scfg)
+        except Viol as v:
+            ctx.violation("C09", "rebuild:" + v.kind, v.detail)
+        except Exception as e:
+            k = exc_key(e)
+            ctx.violation("C09", f"rebuild_raised:{k['type']}", k)
     acc.add_ctx(ctx, case, nontrivial_hash=core.sha([origin, ver]) if njump else None,
                 sample=(acc.evaluations % 499 == 0))
     return flow
